@@ -2,7 +2,7 @@
 """Syntactic mutation sweep over one source file of pitt-rnel/pyrtma, judged by whole checks (`./check Cnn`).
 
     tools/mutate_check.py <worktree> <relative file> --checks C09[,C10...] [--only f1,f2] [--skip f1,f2]
-                          [--limit N] [--lines l1,l2] [--out file.jsonl] [--timeout S] [--list] [--first-catch]
+                          [--limit N] [--lines l1,l2] [--out file.jsonl] [--timeout S] [--list] [--first-catch] [--start N] [--scratch DIR]
 
 The worktree is a scratch `git worktree` of /repo (never /repo itself).  For every mutant (comparison / boolean operator
 swaps, 0<->1 constants, deleted simple statements, negated conditions, swapped `continue`/`break`, +/- swaps) of the file
@@ -33,7 +33,9 @@ assert os.path.realpath(wt) != "/repo"
 path = os.path.join(wt, rel)
 src = open(path).read()
 tree = ast.parse(src)
-scratch = tempfile.mkdtemp(prefix="mutchk_")
+start = int(arg("--start", 1))                                            # skip the mutants numbered below this (resume a sweep)
+# evidence / replays of the mutant runs go to a scratch directory (under --scratch DIR if given: /tmp is swept by others)
+scratch = tempfile.mkdtemp(prefix="mutchk_", dir=arg("--scratch"))
 
 CMP = {ast.Lt: ast.LtE, ast.LtE: ast.Lt, ast.Gt: ast.GtE, ast.GtE: ast.Gt, ast.Eq: ast.NotEq, ast.NotEq: ast.Eq,
        ast.In: ast.NotIn, ast.NotIn: ast.In, ast.Is: ast.IsNot, ast.IsNot: ast.Is}
@@ -125,6 +127,8 @@ def apply(kind, node, i):
 def run_check(prop):
     ev, rp = os.path.join(scratch, "evidence"), os.path.join(scratch, "replays")
     shutil.rmtree(rp, ignore_errors=True)
+    os.makedirs(ev, exist_ok=True)
+    os.makedirs(rp, exist_ok=True)
     env = dict(os.environ, PYRTMA_REPO=wt, VERIF_EVIDENCE_DIR=ev, VERIF_REPLAYS_DIR=rp, VERIF_NOCACHE="1")
     t0 = time.time()
     try:
@@ -172,6 +176,8 @@ try:
         except SyntaxError:
             continue
         n += 1
+        if n < start:
+            continue
         if dry:
             print(json.dumps({"n": n, "kind": kind, "func": f, "line": getattr(node, "lineno", 0), "before": before,
                               "after": after}), file=out, flush=True)
